@@ -118,6 +118,10 @@ func (s *Session) followUpCommits(r *RNG, how string) {
 	}
 	if res := s.Commit(); res != "ok" && !strings.Contains(res, "oom") {
 		s.fail("C07", "abort-followup", "the transaction after an aborted one (%s) did not commit: %s — the aborted transaction left a trace", how, res)
+		if strings.Contains(how, "fault") {
+			// the aborted transaction ran under injected I/O failures, which have stopped: C08's recovery clause
+			s.fail("C08", "no-recovery", "first transaction after the I/O failures stopped (%s) did not commit: %s", how, res)
+		}
 	}
 	s.mark("abort-followup")
 }
@@ -311,7 +315,7 @@ func (s *Session) ShrinkBelowFileSize(r *RNG) bool {
 		return false
 	}
 	newMax := need + uint64(r.Intn(int(fs.MaxPages-need)))
-	if n := len(fs.DataFree); n > 0 && r.Chance(50) {
+	if n := len(fs.DataFree); n > 0 && (r.Chance(50) || s.intoFreeTail) {
 		// a limit INSIDE a free region that reaches the end of the data area: Open releases the excess pages
 		// in a transaction of its own (initTxReleaseRegions), later commits release what is left
 		last := fs.DataFree[n-1]
@@ -661,14 +665,26 @@ func (s *Session) CheckExtent() {
 // Open reports, the file must open again, show the committed data and have a sane allocator.
 // Returns false if the session can not go on.
 func (s *Session) ShrinkUnderFault(r *RNG, openFault bool, prop string) bool {
-	if r.Chance(60) {
+	// (resize run, two of three programs: aim at the release transaction - the limit is lowered into a free
+	// region at the end of the data area, the fault hits the second transaction of the Open)
+	aimed := prop == "C14" && r.Chance(66)
+	if aimed || r.Chance(60) {
 		s.FreeTail(r)
 	}
+	s.intoFreeTail = aimed
+	defer func() { s.intoFreeTail = false }()
 	if openFault {
 		// an I/O error inside the shrinking Open itself (max-size update / release of the excess pages)
 		k := []string{"write", "write", "sync"}[r.Intn(3)]
 		base, _ := s.Disk.CallCounts()
 		from := base[k] + r.Intn(4)
+		if aimed {
+			// the header-only update is one write and two syncs; what follows belongs to the release transaction
+			from = base[k] + 1 + r.Intn(2)
+			if k == "sync" {
+				from = base[k] + 2 + r.Intn(2)
+			}
+		}
 		s.Disk.SetFault(func(kk string, n, total int) simdisk.Action {
 			if kk == k && n == from {
 				s.IOFault = true
@@ -703,6 +719,29 @@ func (s *Session) ShrinkUnderFault(r *RNG, openFault bool, prop string) bool {
 	}
 	s.ReadCheck(prop)
 	s.AccountCheck()
+	if ok && prop == "C14" {
+		// the Open reported success: the new limit is in the header, and it is still there after the next commit
+		// and for a later open (a release transaction whose I/O failed must have been rolled back completely)
+		want := s.Cfg.MaxPages * uint64(s.Cfg.PageSize)
+		hdr := func(when string) {
+			if fs := s.F.VerifSnapshot(); fs.MappedLen > 0 && fs.Meta[fs.MetaActive].MaxSize != want {
+				s.fail("C14", "resize-persist", "shrink with an I/O fault inside Open (reported ok): %s the active header stores max size %d, expected %d", when, fs.Meta[fs.MetaActive].MaxSize, want)
+			}
+		}
+		hdr("after the Open")
+		if s.Begin(TxOpts{}) == "ok" {
+			if live := s.LiveIDs(); len(live) > 0 {
+				s.Write(live[0], "full")
+			}
+			s.Commit()
+			hdr("after the next commit")
+		}
+		s.ReopenCheck()
+		if s.F == nil {
+			return false
+		}
+		hdr("after a later open")
+	}
 	return true
 }
 
